@@ -35,7 +35,7 @@ void Taps::begin_call()
 
 void Taps::disarm()
 {
-    f1.armed = f2.armed = f4.armed = false;
+    f1.armed = f2.armed = f4.armed = f9.armed = false;
 }
 
 int64_t Taps::total_changes() const
@@ -167,6 +167,12 @@ int __wrap_sqlite3_step(sqlite3_stmt* stmt)
         {
             const char* s = sqlite3_sql(stmt);
             t.sql_log.emplace_back(s ? s : "");
+        }
+        if (t.f9.armed && !t.f9.attempted && ord == t.f9.ordinal && t.contention_hook)
+        {
+            // the scheduler lets the second party run here, between two statements of the library's call
+            t.f9.attempted = true;
+            t.f9.fired = t.contention_hook();
         }
         if (t.f1.armed && !t.f1.fired && ord == t.f1.ordinal)
         {
